@@ -43,6 +43,8 @@ type pmsg struct {
 	// Fault: 1 = the stream-handler context is done after the duty was gated, before verification;
 	// 2 = it ends inside the first signature verification. 0 = live context.
 	Fault int32
+	// FailReason names the defect when the entry does not verify (otherwise derived by diffing against the baseline).
+	FailReason string
 	MustAdmit     bool
 }
 
@@ -509,6 +511,17 @@ func (e *env) runPeer(c *kit.Case, w *world, tg target) {
 		}
 	}
 
+	// 7b. production-client worlds: fork-boundary sweep
+	for _, si := range w.forkSweep(k, v, v.Shares[share], rng) {
+		ii, err := w.inspect(si.Item)
+		if err != nil {
+			continue
+		}
+		m := newMsg("fork-sweep", si.Detail, entryOf(v, si.Item, share))
+		m.DutySlot, m.FailReason = ii.Slot, "wrong-fork-domain"
+		msgs = append(msgs, m)
+	}
+
 	// 8. fault injection: re-deliver a sample of the invalid (and two valid) messages to a second
 	// real ParSigEx of the node whose stream-handler context is done by the time the set is verified.
 	{
@@ -631,7 +644,10 @@ func (e *env) judgePeer(c *kit.Case, w *world, tg target, k kind, m *pmsg, baseI
 		case ae.ierr != nil:
 			reasons = append(reasons, "unparseable")
 		case !w.verifies(ae.info, shares[int(en.ShareIdx)]):
-			if multi {
+			if m.FailReason != "" {
+				cryptoReason = len(reasons) == 0
+				reasons = append(reasons, m.FailReason)
+			} else if multi {
 				cryptoReason = len(reasons) == 0 || reasons[len(reasons)-1] == "invalid-under-claimed-share"
 				if len(reasons) == 0 {
 					reasons = append(reasons, "invalid-under-claimed-share")
@@ -804,6 +820,9 @@ func (e *env) judgePeer(c *kit.Case, w *world, tg target, k kind, m *pmsg, baseI
 
 		return true, false
 	default:
+		if m.Class == "fork-sweep" {
+			r.Count(fmt.Sprintf("fork_sweep_correct_domain_admitted=%v", len(out.Admitted) > 0), 1)
+		}
 		if len(out.Admitted) > 0 {
 			r.Count("may_admit_admitted", 1)
 			e.tally(tg.Name, m.Class, cls, "admitted")
